@@ -236,6 +236,32 @@ def flat_vs_body(draw, o, kf, f1, f2=None, f3=None):
 
 
 @st.composite
+def tangent_in_face(draw, o, kf):
+    """1-D flat lying in the plane of a face (or of the polygon) on a supporting line of that face at one of its
+    vertices: it touches the face in exactly that vertex, or misses it when its extent stops short of / starts
+    beyond the vertex"""
+    f = draw(st.sampled_from(face_lists(o)))
+    m = len(f)
+    i = draw(st.integers(0, m - 1))
+    P, V, N = f[i - 1], f[i], f[(i + 1) % m]
+    a, b = draw(st.sampled_from(((1, 1), (1, 2), (2, 1), (3, 1))))
+    d = X.add(X.mul(F(a), X.sub(V, P)), X.mul(F(b), X.sub(N, V)))  # supporting direction at a strictly convex vertex
+    if draw(st.booleans()):
+        d = X.mul(F(-1), d)
+    k = draw(st.sampled_from((F(1), F(1, 2), F(1, 4))))
+    d = X.mul(k, d)
+    T = (F(-2), F(-1), F(-1, 2), F(0), F(1, 2), F(1), F(2))
+    t0 = draw(st.sampled_from(T))
+    if kf == "L":
+        return ("L", X.add(V, X.mul(t0, d)), d)
+    if kf == "H":
+        return ("H", X.add(V, X.mul(t0, d)), d)
+    t1 = draw(st.sampled_from(T))
+    assume(t0 != t1)
+    return ("S", X.add(V, X.mul(t0, d)), X.add(V, X.mul(t1, d)))
+
+
+@st.composite
 def special_plane(draw, o, recipe):
     """planes in special position w.r.t. body o: face / parallel-in / parallel-out / tangent-V / tangent-E"""
     if o[0] == "G":
